@@ -717,3 +717,17 @@ def replay_case_from_file(path):
     txt = open(path).read()
     m = re.search(r"^(?:case|first disagreeing case): (.*)$", txt, re.M)
     return m.group(1).rstrip("\n") if m else None
+
+
+def coqchk(prop, timeout=2400):
+    """Thorough tier: re-check the compiled Properties module and everything it depends on with the independent
+    checker and list the axioms it relies on.  Returns (ok, summary)."""
+    with Lock("coq"):
+        rc, out, err = sh(["coqchk", "-silent", "-o", "-Q", ".", "OV", "OV.%s.Properties_%s" % (prop, prop)], cwd=COQ, timeout=timeout)
+    txt = out + err
+    m = re.search(r"\* Axioms:(.*?)\n\s*\n\* Constants", txt, re.S)
+    axioms = m.group(1).strip() if m else "?"
+    names = [a.strip() for a in re.split(r"[\n]+", axioms) if a.strip() and a.strip() != "<none>"]
+    bad = [a for a in names if a.split(".")[-1] not in ALLOWED_AXIOMS and a not in ALLOWED_AXIOMS]
+    ok = (rc == 0) and not bad and "type-in-type: <none>" in txt and "unsafe (co)fixpoints: <none>" in txt and "positivity is assumed: <none>" in txt
+    return ok, "rc=%d axioms=%s" % (rc, axioms.replace("\n", " ")[:300])
